@@ -24,6 +24,13 @@ CHECKS = {
                 text="per-substance conservation over all physical objects and identity of every bystander well, for "
                      "20 source/destination geometries (two plates, one plate disjoint/overlapping, container into "
                      "itself, whole Plate on either side, lists, stepped slices) with every well amount symbolic."),
+    'C03': dict(engine=E1, design='§4 C03',
+                technique="symbolic execution of each operation with unconstrained requests; accept/refuse regions compared with independent feasibility predicates by z3",
+                text="for construction, transfer (4 unit kinds), plate transfer, fill_to, dilute, create_solution, "
+                     "create_solution_from and a baked recipe, with requests of either sign and symbolic capacities: "
+                     "returned objects have amounts >= 0 and 0 <= volume <= capacity, acceptance implies the request is "
+                     "feasible, refusal is a ValueError and implies the request is infeasible (so exact-capacity "
+                     "requests are accepted; also checked under the delta rounding model)."),
     'C02': dict(engine=E1, design='§4 C02',
                 technique="symbolic execution of Container.transfer/Plate.transfer with z3 (QF_NRA/LRA), differential vs independent unit table",
                 text="size of the aliquot (in the unit of q), uniformity (cross-multiplied ratios) and destination gain "
